@@ -138,15 +138,15 @@ example : getIpsecConf [tsA] [tsB] [{ myTs := tsB, peerTs := tsB, mode := 1 }] =
     its local selector lies inside that entry's local selector and inside a TSr the request offered; its remote selector inside
     the entry's remote selector and inside an offered TSi -/
 theorem c12_concrete_responder_narrows_and_mode (now : Nat) (request : Msg) (h : HM HRes) (hh : requestHandler now request = some h)
-    (me : XSa) (succ : Option XSa) (tape : Tape) :
-    ∀ k ∈ (runH h me succ tape).me.ext.kids, k ∈ me.ext.kids ∨
+    (me : XSa) (succ : Option XSa) (tape : Tape) (sad : List (Bytes × Nat × Bytes)) :
+    ∀ k ∈ (runH h me succ tape sad).me.ext.kids, k ∈ me.ext.kids ∨
       ∃ pol ∈ me.ext.conf.protect, ∃ a b : TS, k.tsi = [a] ∧ k.tsr = [b] ∧ k.mode = pol.mode ∧
         pol.mode = (if (getNotifies request nUSE_TRANSPORT_MODE true).isEmpty then 1 else 0) ∧
         tsSubset a pol.myTs = true ∧ tsSubset b pol.peerTs = true ∧
         (∃ tsr, payTS request ptTSr true = .ok tsr ∧ ∃ x ∈ tsr, tsSubset a x = true) ∧
         (∃ tsi, payTS request ptTSi true = .ok tsi ∧ ∃ y ∈ tsi, tsSubset b y = true) := by
   intro k hk
-  rcases requestHandler_kids now request h hh me succ tape k hk with h1 | ⟨pol, hp, a, b, h1, h2, h3, h4, h5, h6, h7, h8, _⟩
+  rcases requestHandler_kids now request h hh me succ tape sad k hk with h1 | ⟨pol, hp, a, b, h1, h2, h3, h4, h5, h6, h7, h8, _⟩
   · exact Or.inl h1
   · exact Or.inr ⟨pol, hp, a, b, h1, h2, h3, h4, h5, h6, h7, h8⟩
 
@@ -155,12 +155,12 @@ theorem c12_concrete_responder_narrows_and_mode (now : Nat) (request : Msg) (h :
     narrowed — the mode it asked for, which is also the mode the response carries; one selector per side, each contained in a
     selector it offered; its own inbound SPI.  A response that widens a selector or changes the mode installs nothing. -/
 theorem c12_concrete_initiator_never_widens (now : Nat) (response : Msg) (h : HM HRes) (hh : responseHandler now response = some h)
-    (me : XSa) (succ : Option XSa) (tape : Tape) (cr : Child) (hcr : me.ext.creating = some cr) :
-    ∀ k ∈ (runH h me succ tape).me.ext.kids, k ∈ me.ext.kids ∨
+    (me : XSa) (succ : Option XSa) (tape : Tape) (sad : List (Bytes × Nat × Bytes)) (cr : Child) (hcr : me.ext.creating = some cr) :
+    ∀ k ∈ (runH h me succ tape sad).me.ext.kids, k ∈ me.ext.kids ∨
       (k.mode = cr.mode ∧ cr.mode = (if (getNotifies response nUSE_TRANSPORT_MODE true).isEmpty then 1 else 0) ∧ k.inSpi = cr.inSpi ∧
        ∃ a b : TS, k.tsi = [a] ∧ k.tsr = [b] ∧ (∃ x ∈ cr.tsi, tsSubset a x = true) ∧ (∃ y ∈ cr.tsr, tsSubset b y = true)) := by
   intro k hk
-  rcases responseHandler_kids now response h hh me succ tape cr hcr k hk with h1 | ⟨h1, h2, h3, h4, _⟩
+  rcases responseHandler_kids now response h hh me succ tape sad cr hcr k hk with h1 | ⟨h1, h2, h3, h4, _⟩
   · exact Or.inl h1
   · exact Or.inr ⟨h1, h2, h3, h4⟩
 
